@@ -116,10 +116,15 @@ def build_verus(run):
         dfs = Snippet(src.fn('dfs'), 'vacuity-probe dfs' if probe else 'dfs')
         mono(dfs, r'<T: Eq \+ Hash \+ Clone \+ Debug \+ Immutable, U: Debug>')
         rules.diagnostics(dfs)
-        dfs.rw('R4', r'g\.iter\(\)\.find\(\|n\| n\.id == v\)', 'w_find_node(g, v)', expect=1)
+        dfs.rw('R4', r'g\.iter\(\)\.find\(\|(\w+)\| \1\.id == v\)', 'w_find_node(g, v)', expect=1)
         dfs.rw('R4', r'\bidx\.contains\((\w+)\)', r'w_vec_contains(idx, \1)', expect='*')
-        dfs.rw('R11', r'for node_id in vertex\.depends_on\.iter\(\) \{',
-               'let verif_elems = w_set_elems(&vertex.depends_on);\n    let mut verif_i: usize = 0;\n    while verif_i < verif_elems.len() {\n        let node_id = &verif_elems[verif_i]; verif_i = verif_i + 1;', expect=1)
+        # the locals are called whatever the code calls them: D = the dependency visited by the loop, V = the node found for v
+        mloop = re.search(r'for (\w+) in (\w+)\.depends_on\.iter\(\) \{', dfs.text)
+        if not mloop:
+            raise Undecided("dfs: the loop over the dependencies of the vertex was not found")
+        D, V = mloop.group(1), mloop.group(2)
+        dfs.rw('R11', r'for %s in %s\.depends_on\.iter\(\) \{' % (D, V),
+               'let verif_elems = w_set_elems(&%s.depends_on);\n    let mut verif_i: usize = 0;\n    while verif_i < verif_elems.len() {\n        let %s = &verif_elems[verif_i]; verif_i = verif_i + 1;' % (V, D), expect=1)
         if probe:
             dfs.rename_fn('dfs__vacuity_probe')
             run.extra.setdefault('vacuity_probe_labels', []).append(dfs.label)
@@ -127,12 +132,13 @@ def build_verus(run):
         dfs.body_prologue("let ghost verif_used0 = used@; let ghost verif_idx0 = idx@;")
         dfs.insert_at(r'let mut verif_i: usize = 0;', "    proof { if verif_idx0.contains(v) { lemma_order_listed_used(g@, verif_used0, verif_idx0, v); } lemma_order_used(g@, verif_used0, used@, idx@); }", where='before')
         dfs.loop_spec(0, DFS_LOOP)
-        dfs.insert_at(r'verif_i = verif_i \+ 1;', """        proof {
+        dfs.insert_at(r'verif_i = verif_i \+ 1;', ("""        proof {
             assert(verif_elems@.contains(*node_id)); lemma_edge_intro(g@, v, *node_id);
             // a dependency that is being visited (used, not yet listed) closes a cycle
             if gray(used@, idx@, *node_id) { if *node_id == v { lemma_self_cycle(g@, v); } else { lemma_cycle(g@, *node_id, v); } }
-        }""", where='after')
-        dfs.insert_at(r'dfs\(g, node_id\.clone\(\), used, idx\)\?;', """            proof {
+        }""").replace('node_id', D), where='after')
+        CALL = r'dfs\(g, %s\.clone\(\), used, idx\)\?;' % D
+        dfs.insert_at(CALL, ("""            proof {
                     assert forall|x: u64| gray(used@, idx@, x) implies reach(g@, x, *node_id) by {
                         if x == v { lemma_reach_refl_edge(g@, v, *node_id); } else { lemma_reach_step(g@, x, v, *node_id); }
                     }
@@ -144,8 +150,8 @@ def build_verus(run):
                     assert(unused(g@, used@).len() < unused(g@, verif_used0).len());
                 }
                 let ghost verif_idx1 = idx@;
-                let ghost verif_used1 = used@;""", where='before')
-        dfs.insert_at(r'dfs\(g, node_id\.clone\(\), used, idx\)\?;', """            proof {
+                let ghost verif_used1 = used@;""").replace('node_id', D), where='before')
+        dfs.insert_at(CALL, """            proof {
                     assert(gray(verif_used1, verif_idx1, v));
                     assert forall|j: int| 0 <= j < verif_i implies idx@.contains(verif_elems@[j]) by {
                         if j < verif_i - 1 { lemma_prefix_contains(verif_idx1, idx@, verif_elems@[j]); }
@@ -167,20 +173,25 @@ def build_verus(run):
         rules.strip_vis_attrs(ts)
         mono(ts, r'<T: Eq \+ Hash \+ Clone \+ Debug \+ Immutable, U: Debug>')
         ts.rw('R5', r'\bSet::new\(\)', 'ErgSet::new()', expect=1)
-        ts.rw('R11', r'for v in g\.iter\(\) \{', 'let mut verif_k: usize = 0;\n    while verif_k < g.len() {\n        let v = &g[verif_k]; verif_k = verif_k + 1;', expect=1)
+        mt = re.search(r'for (\w+) in g\.iter\(\) \{', ts.text)
+        if not mt:
+            raise Undecided("tsort: the loop over the nodes was not found")
+        N = mt.group(1)   # the loop variable, whatever it is called
+        ts.rw('R11', r'for %s in g\.iter\(\) \{' % N, 'let mut verif_k: usize = 0;\n    while verif_k < g.len() {\n        let %s = &g[verif_k]; verif_k = verif_k + 1;' % N, expect=1)
         if probe:
             ts.rename_fn('tsort__vacuity_probe')
             run.extra.setdefault('vacuity_probe_labels', []).append(ts.label)
         ts.contract('ensures false,' if probe else TSORT_SPEC)
         ts.insert_at(r'let mut verif_k: usize = 0;', "    proof { reveal(order_ok); }", where='before')
         ts.loop_spec(0, TSORT_LOOP)
-        ts.insert_at(r'verif_k = verif_k \+ 1;', "        proof { assert(!gray(used@, idx@, v.id)); }", where='after')
-        ts.insert_at(r'dfs\(&g, v\.id\.clone\(\), &mut used, &mut idx\)\?;', """            let ghost verif_idx1 = idx@;
+        ts.insert_at(r'verif_k = verif_k \+ 1;', "        proof { assert(!gray(used@, idx@, %s.id)); }" % N, where='after')
+        TCALL = r'dfs\(&g, %s\.id\.clone\(\), &mut used, &mut idx\)\?;' % N
+        ts.insert_at(TCALL, """            let ghost verif_idx1 = idx@;
                 proof {
                     lemma_has_node(g@, verif_k - 1);
                     assert forall|x: u64| !#[trigger] has_node(g@, x) && (x == v.id || reach(g@, v.id, x)) implies has_node(g@, v.id) && reach(g@, v.id, x) by { }
-                }""", where='before')
-        ts.insert_at(r'dfs\(&g, v\.id\.clone\(\), &mut used, &mut idx\)\?;', """            proof {
+                }""".replace('v.id', N + '.id'), where='before')
+        ts.insert_at(TCALL, """            proof {
                     assert forall|j: int| 0 <= j < verif_k implies idx@.contains(#[trigger] g@[j].id) by {
                         if j < verif_k - 1 { lemma_prefix_contains(verif_idx1, idx@, g@[j].id); }
                     }
